@@ -293,7 +293,7 @@ pub fn run(args: &[String]) -> i32 {
         random: opt_usize(args, "--random", 6),
         step_limit: opt_usize(args, "--step-limit", 400_000),
     });
-    let hang_secs = opt_usize(args, "--hang-secs", 20) as u64;
+    let hang_secs = opt_usize(args, "--hang-secs", 45) as u64;
     let threads = opt_usize(args, "--threads", 8).max(1);
     let seed = yvcommon::util::seed();
     let lines: Vec<Value> = yvcommon::util::open_in(args)
